@@ -2028,6 +2028,10 @@ def moveaxis(a, source, destination):
 
     if len(source) != len(destination):
         raise ValueError("`source` and `destination` arguments must have the same number of elements")
+    if len(set(source)) != len(source):
+        raise ValueError("repeated axis in `source` argument")
+    if len(set(destination)) != len(destination):
+        raise ValueError("repeated axis in `destination` argument")
 
     order = [n for n in range(a.ndim) if n not in source]
 
